@@ -2199,6 +2199,8 @@ impl KnowledgeGraph {
             new_snapshot.max_result_rows = self.max_result_rows;
             new_snapshot.max_query_cost = self.max_query_cost;
             new_snapshot.hnsw_search_fn = hnsw_fn;
+            #[cfg(inputlayer_verif)]
+            crate::verif_hooks::point("kg.publish.before_store");
             self.snapshot.store(Arc::new(new_snapshot));
 
             // Lock drops here AFTER publication - this is the fix for TOCTOU
@@ -2212,6 +2214,8 @@ impl KnowledgeGraph {
             );
             new_snapshot.max_result_rows = self.max_result_rows;
             new_snapshot.max_query_cost = self.max_query_cost;
+            #[cfg(inputlayer_verif)]
+            crate::verif_hooks::point("kg.publish.before_store");
             self.snapshot.store(Arc::new(new_snapshot));
         }
 
@@ -2265,6 +2269,8 @@ impl KnowledgeGraph {
     ///
     /// Returns an Arc to the current snapshot. This is O(1) and lock-free.
     pub fn snapshot(&self) -> Arc<KnowledgeGraphSnapshot> {
+        #[cfg(inputlayer_verif)]
+        crate::verif_hooks::point("se.read.before_snapshot");
         self.snapshot.load_full()
     }
 
